@@ -74,20 +74,27 @@ impl RollingChecksum {
     #[cfg_attr(feature = "contracts", ensures(ret.b < Self::MOD, "b < MOD"))]
     #[cfg_attr(feature = "contracts", ensures(ret.count == data.len(), "count == input len"))]
     pub fn new(data: &[u8]) -> Self {
-        let mut a: u32 = 0;
-        let mut b: u32 = 0;
+        let m = u64::from(Self::MOD);
+        let mut a: u64 = 0;
+        let mut b: u64 = 0;
         let len = data.len();
 
-        for (i, &byte) in data.iter().enumerate() {
-            a = a.wrapping_add(u32::from(byte));
-            // Weight is (len - i) so first byte has highest weight
-            // Truncation is intentional: checksum uses 32-bit arithmetic
-            b = b.wrapping_add((len - i) as u32 * u32::from(byte));
+        // b = sum of (len - i) * x_i is the sum of the running values of a, so
+        // the first byte has the highest weight. Accumulate in 64 bits and
+        // reduce once per chunk: 32-bit wrapping sums are not congruent mod
+        // 65521 once the weighted sum passes 2^32 (a few KiB of high bytes).
+        for chunk in data.chunks(1 << 16) {
+            for &byte in chunk {
+                a += u64::from(byte);
+                b += a;
+            }
+            a %= m;
+            b %= m;
         }
 
         let result = Self {
-            a: a % Self::MOD,
-            b: b % Self::MOD,
+            a: a as u32,
+            b: b as u32,
             count: len,
         };
         debug_assert!(result.a < Self::MOD, "a must be < MOD after init");
@@ -139,16 +146,16 @@ impl RollingChecksum {
         let old = u32::from(old_byte);
         let new = u32::from(new_byte);
 
-        // Update a: remove old, add new
-        self.a = (self.a.wrapping_sub(old).wrapping_add(new)) % Self::MOD;
+        // Update a: remove old, add new (a < MOD and old <= 255, so adding MOD
+        // first keeps the subtraction non-negative)
+        self.a = (self.a + Self::MOD - old + new) % Self::MOD;
 
-        // Update b: remove old's contribution (it was weighted by count), add new a
-        // Truncation is intentional: checksum uses 32-bit arithmetic
-        self.b = (self
-            .b
-            .wrapping_sub(self.count as u32 * old)
-            .wrapping_add(self.a))
-            % Self::MOD;
+        // Update b: remove old's contribution (it was weighted by count), add new a.
+        // Done as a true modular subtraction: a wrapping 32-bit subtraction
+        // followed by `% MOD` is off by 2^32 mod 65521 whenever it wraps.
+        let m = u64::from(Self::MOD);
+        let removed = (self.count as u64 % m) * u64::from(old) % m;
+        self.b = ((u64::from(self.b) + m - removed + u64::from(self.a)) % m) as u32;
 
         debug_assert!(self.a < Self::MOD, "a must be < MOD after roll");
         debug_assert!(self.b < Self::MOD, "b must be < MOD after roll");
